@@ -290,7 +290,22 @@ pub fn gen_packet(r: &mut Rng) -> Vec<u8> {
 /// hand-made boundary family: long pointer chains (15/16/17), maximal names (254/255/256), labels 63/64
 pub fn gen_boundary(r: &mut Rng) -> Vec<u8> {
     let mut p = vec![0u8, 1, 0x80, 0, 0, 1, 0, 1, 0, 0, 0, 0];
-    match r.below(5) {
+    match r.below(6) {
+        5 => {
+            // a name-bearing record (SOA, MX or NS) whose RDLENGTH exceeds what its names and fixed fields need (slack 0 = exact fit)
+            let slack = *r.pick(&[0usize, 1, 2, 7, 20]);
+            p.extend_from_slice(&[1, b'q', 0]); put16(&mut p, 1); put16(&mut p, 1);
+            p.extend_from_slice(&[0xc0, 12]);
+            let t = *r.pick(&[6u16, 15, 2]);
+            put16(&mut p, t); put16(&mut p, 1); put32(&mut p, 7);
+            let mut d: Vec<u8> = vec![];
+            match t { 6 => { d.extend_from_slice(&[2, b'n', b's', 0xc0, 12]); d.extend_from_slice(&[1, b'h', 0xc0, 12]); d.extend_from_slice(&[0u8; 20]); }
+                      15 => { d.extend_from_slice(&[0, 10, 2, b'm', b'x', 0xc0, 12]); }
+                      _ => { d.extend_from_slice(&[2, b'n', b's', 0xc0, 12]); } }
+            d.extend(std::iter::repeat(0x55u8).take(slack));
+            put16(&mut p, d.len() as u16); p.extend(d);
+            p[7] = 1;
+        }
         4 => {
             // two OPT records in the additional section: the first with or without options, the second empty
             p.extend_from_slice(&[1, b'q', 0]); put16(&mut p, 1); put16(&mut p, 1);
